@@ -147,6 +147,18 @@ func init() {
 			if done == 0 && len(outs) > 0 {
 				rep.Samples = append(rep.Samples, map[string]interface{}{"source": outs[0].Case.Source, "input_trace_len": len(outs[0].Original.Trace), "input_outcome": outs[0].Original.Outcome})
 			}
+			// the same kind of program as a strict ES module next to a lib.js with the same top-level names,
+			// bundled (with and without identifier minification): native execution vs bundle
+			gcases := []c02Case{}
+			for i := 0; i < n/5+1; i++ {
+				gr := r.Fork()
+				g := gen.NewScopeGen(gr)
+				files := g.Module()
+				mergeStats(rep, "gen-module:", g.Stats)
+				gcases = append(gcases, c02Case{g: &gen.Graph{Files: files, Entries: []string{"main.js"}}, variants: []string{"fmt=esm", "fmt=esm,mi", pickS(gr, "fmt=cjs,platform=node,mi", "fmt=iife,global=G,ms,mi,mw", "fmt=esm,mi,kn", "fmt=esm,splitting,mi")}})
+			}
+			runGraphDiff(rep, filepath.Join(workdir, "c15-mod"), "c15-module", gcases, false)
+
 			// JSX element names (output is JSX text, so a text check instead of execution): components are
 			// renamed to capitalised names; all 26 capital letters, _ and $ are free globals of the file
 			for i := 0; i < n/4+1; i++ {
